@@ -443,7 +443,13 @@ scanopen(void)
 void
 scansetloc(struct location loc)
 {
-	scanner->loc = loc;
+	/*
+	tok is the newline that ends the directive, located on the
+	line that follows it. The scanner is one character ahead and
+	has already counted any newline it read since then.
+	*/
+	scanner->loc.line = loc.line + (scanner->loc.line - tok.loc.line);
+	scanner->loc.file = loc.file;
 }
 
 static void
